@@ -380,7 +380,10 @@ class BTTwin(TwinLeague):
     KINDS = ["BTF"]
 
     def make_models(self, first):
-        return [mk_model(dict(self.cfg, kind="BTF")), mk_model(dict(self.cfg, kind="BTP"))]
+        from vf import failing
+
+        m, self.trip = failing.tripwire_model(dict(self.cfg, kind="BTP"))
+        return [mk_model(dict(self.cfg, kind="BTF")), m]
 
     def side_calls(self, step):
         call = dict(step["frag"], **{k: v for k, v in step["opts"].items() if v is not None})
@@ -392,7 +395,13 @@ class BTTwin(TwinLeague):
         return {"frag": frag, "opts": draw(gen.call_options(h.cfg))}
 
 
-BTTwin.RULES = {"play_two": _twin_play(2, 2)}
+def _bt_fail(h):
+    from vf import failing
+
+    return failing.failing_specs(dict(h.cfg, kind="BTP"))
+
+
+BTTwin.RULES = {"play_two": _twin_play(2, 2), "failed_call_on_side_b": _bt_fail}
 
 
 PROPERTY = Property(
